@@ -454,9 +454,13 @@ func NewDecoder(n int, sep string, r io.Reader) (sts.PayloadDecoder, error) {
 		// The names are joined onto the stage and target directories by the
 		// receiver, so they must not be able to lead out of them
 		for _, part := range binReader.meta {
-			for _, p := range []string{part.Name, part.Prev, part.Renamed} {
-				if p != "" && !filepath.IsLocal(p) {
-					err = fmt.Errorf("path in payload metadata is not local: %s", p)
+			for i, p := range []string{part.Name, part.Prev, part.Renamed} {
+				if p == "" && i > 0 {
+					continue // no predecessor / no rename
+				}
+				// (a name that cleans to "." would address the directory itself)
+				if !filepath.IsLocal(p) || filepath.Clean(p) == "." {
+					err = fmt.Errorf("path in payload metadata is not local: %q", p)
 				}
 			}
 		}
